@@ -258,15 +258,15 @@ def rule_field_names(ctx):
 
 
 # ------------------------------------------------------------------------------------------------- O9.6 / O9.8
-def rule_field_row(ctx):
+def rule_field_row(ctx, rule="O9.6", mode="values"):
     model = ctx.model
-    ctx.res.minimum("O9.6", 1)
+    ctx.res.minimum(rule, 1)
 
     def cell(ch):
         format_name = ch.choose("format", ["delimited", "fixed"])
         mark = ch.choose("empty mark", ["", "x", "X", " x ", "y", "xx", "0"])
         length_shape = ch.choose("length", ["absent", "exact 3", "exact 0", "exact -1", "range 1-3", "open lower -1", "open upper only -1",
-                                            "open upper only 5", "lower 0"])
+                                            "open upper only 5", "lower 0", "two items open on both ends"])
         example = ch.choose("example", ["", "good", "bad"])
         duplicate = ch.choose("duplicate name", [False, True])
         construction = ch.choose("construction", ["ok", "InterfaceError"])
@@ -274,6 +274,7 @@ def rule_field_row(ctx):
             "absent": (None, None, None), "exact 3": ([(3, 3)], 3, 3), "exact 0": ([(0, 0)], 0, 0), "exact -1": ([(-1, -1)], -1, -1),
             "range 1-3": ([(1, 3)], 1, 3), "open lower -1": ([(-1, None)], -1, None), "open upper only -1": ([(None, -1)], None, -1),
             "open upper only 5": ([(None, 5)], None, 5), "lower 0": ([(0, None)], 0, None),
+            "two items open on both ends": ([(None, 3), (5, None)], None, None),
         }
         items, lower, upper = shapes[length_shape]
         seen = {}
@@ -324,6 +325,10 @@ def rule_field_row(ctx):
                 if not isinstance(location, Obj) or location.attrs.get("_line") != 7:
                     outcome += " without the row's location"
         key = "format=%s mark=%r length=%s example=%r duplicate=%s construction=%s" % (format_name, mark, length_shape, example, duplicate, construction)
+        if mode == "errors":
+            # C10: whatever the cells of a field row, it is accepted or refused with InterfaceError - nothing else
+            actual = outcome if not (outcome == "accepted" or outcome.startswith("raise InterfaceError")) else "accepted-or-InterfaceError"
+            return (key, actual, "accepted-or-InterfaceError")
         mark_ok = mark.strip().lower() in ("", "x")
         if format_name == "fixed":
             length_ok = items is not None and lower == upper and lower is not None and lower >= 1
@@ -344,8 +349,8 @@ def rule_field_row(ctx):
             problems.append("field not registered")
         return (key, "; ".join(problems) if problems else "accepted", "accepted")
 
-    decide(ctx, "O9.6", "add_field_format_row(mark, length ladder, example, duplicates)", CID + ".add_field_format_row", cell, min_cells=500,
-           max_report=8)
+    decide(ctx, rule, "add_field_format_row(mark, length ladder, example, duplicates)" + ("" if mode == "values" else "[errors]"),
+           CID + ".add_field_format_row", cell, min_cells=500, max_report=8)
 
 
 # ------------------------------------------------------------------------------------------------- O9.7
